@@ -6,6 +6,7 @@ from ... import ir
 from ...utils.bitfun import rotr, rotl, to_signed, to_unsigned
 from ...utils.bitfun import clz, ctz, popcnt, sign_extend
 from ..util import make_int
+from ._base_instance import WasmTrapException
 
 
 class Unreachable(RuntimeError):
@@ -16,13 +17,28 @@ class Unreachable(RuntimeError):
     pass
 
 
+def round_f32(v: float) -> float:
+    """Round to the nearest single precision value."""
+    try:
+        return struct.unpack("<f", struct.pack("<f", v))[0]
+    except OverflowError:
+        return math.copysign(math.inf, v)
+
+
+def float_sqrt(v: float) -> float:
+    """Square root, NaN for negative values."""
+    if v < 0:
+        return math.nan
+    return math.sqrt(v)
+
+
 def f32_sqrt(v: ir.f32) -> ir.f32:
     """Square root"""
-    return math.sqrt(v)
+    return round_f32(float_sqrt(v))
 
 
 def f64_sqrt(v: ir.f64) -> ir.f64:
-    return math.sqrt(v)
+    return float_sqrt(v)
 
 
 def i32_rotr(v: ir.i32, cnt: ir.i32) -> ir.i32:
@@ -71,66 +87,56 @@ def i64_popcnt(v: ir.i64) -> ir.i64:
 
 
 # Conversions:
-def i32_trunc_f32_s(value: ir.f32) -> ir.i32:
+def truncate(value: float, lower_limit, upper_limit, bits) -> int:
+    """Truncate toward zero, trap when the result is not representable."""
+    if math.isnan(value):
+        raise WasmTrapException("invalid conversion to integer")
     if math.isinf(value):
-        return 0  # undefined
-    else:
-        return int(value)
+        raise WasmTrapException("integer overflow")
+    v = int(value)
+    if v < lower_limit or v > upper_limit:
+        raise WasmTrapException("integer overflow")
+    return make_int(v, bits)
+
+
+def i32_trunc_f32_s(value: ir.f32) -> ir.i32:
+    return truncate(value, MIN_I32, MAX_I32, 32)
 
 
 def i32_trunc_f32_u(value: ir.f32) -> ir.i32:
-    if math.isinf(value):
-        return 0  # undefined
-    else:
-        return make_int(value, 32)
+    return truncate(value, MIN_U32, MAX_U32, 32)
 
 
 def i32_trunc_f64_s(value: ir.f64) -> ir.i32:
-    if math.isinf(value):
-        return 0  # undefined
-    else:
-        return int(value)
+    return truncate(value, MIN_I32, MAX_I32, 32)
 
 
 def i32_trunc_f64_u(value: ir.f64) -> ir.i32:
-    if math.isinf(value):
-        return 0  # undefined
-    else:
-        return make_int(value, 32)
+    return truncate(value, MIN_U32, MAX_U32, 32)
 
 
 def i64_trunc_f32_s(value: ir.f32) -> ir.i64:
-    if math.isinf(value):
-        return 0  # undefined
-    else:
-        return int(value)
+    return truncate(value, MIN_I64, MAX_I64, 64)
 
 
 def i64_trunc_f32_u(value: ir.f32) -> ir.i64:
-    if math.isinf(value):
-        return 0  # undefined
-    else:
-        return make_int(value, 64)
+    return truncate(value, MIN_U64, MAX_U64, 64)
 
 
 def i64_trunc_f64_s(value: ir.f64) -> ir.i64:
-    if math.isinf(value):
-        return 0  # undefined
-    else:
-        return int(value)
+    return truncate(value, MIN_I64, MAX_I64, 64)
 
 
 def i64_trunc_f64_u(value: ir.f64) -> ir.i64:
-    if math.isinf(value):
-        return 0  # undefined
-    else:
-        return make_int(value, 64)
+    return truncate(value, MIN_U64, MAX_U64, 64)
 
 
 # saturated trunc
 
 
 def satured_truncate(value: float, lower_limit, upper_limit) -> int:
+    if math.isnan(value):
+        return 0
     if math.isinf(value):
         if value > 0:
             return upper_limit
@@ -196,7 +202,7 @@ def f64_promote_f32(v: ir.f32) -> ir.f64:
 
 
 def f32_demote_f64(v: ir.f64) -> ir.f32:
-    return v
+    return round_f32(v)
 
 
 def f64_reinterpret_i64(v: ir.i64) -> ir.f64:
@@ -227,20 +233,38 @@ def f64_copysign(x: ir.f64, y: ir.f64) -> ir.f64:
     return math.copysign(x, y)
 
 
-def f32_min(x: ir.f32, y: ir.f32) -> ir.f32:
+def float_min(x: float, y: float) -> float:
+    """Minimum: NaN if an operand is NaN, -0.0 is below 0.0"""
+    if math.isnan(x) or math.isnan(y):
+        return math.nan
+    if x == y:
+        return x if math.copysign(1.0, x) < 0 else y
     return min(x, y)
+
+
+def float_max(x: float, y: float) -> float:
+    """Maximum: NaN if an operand is NaN, 0.0 is above -0.0"""
+    if math.isnan(x) or math.isnan(y):
+        return math.nan
+    if x == y:
+        return y if math.copysign(1.0, x) < 0 else x
+    return max(x, y)
+
+
+def f32_min(x: ir.f32, y: ir.f32) -> ir.f32:
+    return float_min(x, y)
 
 
 def f64_min(x: ir.f64, y: ir.f64) -> ir.f64:
-    return min(x, y)
+    return float_min(x, y)
 
 
 def f32_max(x: ir.f32, y: ir.f32) -> ir.f32:
-    return max(x, y)
+    return float_max(x, y)
 
 
 def f64_max(x: ir.f64, y: ir.f64) -> ir.f64:
-    return max(x, y)
+    return float_max(x, y)
 
 
 def f32_abs(x: ir.f32) -> ir.f32:
@@ -251,60 +275,43 @@ def f64_abs(x: ir.f64) -> ir.f64:
     return math.fabs(x)
 
 
-def f32_floor(x: ir.f32) -> ir.f32:
-    if math.isinf(x):
+def round_to_integral(func, x: float) -> float:
+    """Apply an integer rounding function, keep NaN, infinities and the sign."""
+    if math.isnan(x) or math.isinf(x):
         return x
-    else:
-        return float(math.floor(x))
+    return math.copysign(float(func(x)), x)
+
+
+def f32_floor(x: ir.f32) -> ir.f32:
+    return round_to_integral(math.floor, x)
 
 
 def f64_floor(x: ir.f64) -> ir.f64:
-    if math.isinf(x):
-        return x
-    else:
-        return float(math.floor(x))
+    return round_to_integral(math.floor, x)
 
 
 def f32_ceil(x: ir.f32) -> ir.f32:
-    if math.isinf(x):
-        return x
-    else:
-        return float(math.ceil(x))
+    return round_to_integral(math.ceil, x)
 
 
 def f64_ceil(x: ir.f64) -> ir.f64:
-    if math.isinf(x):
-        return x
-    else:
-        return float(math.ceil(x))
+    return round_to_integral(math.ceil, x)
 
 
 def f32_nearest(x: ir.f32) -> ir.f32:
-    if math.isinf(x):
-        return x
-    else:
-        return float(round(x))
+    return round_to_integral(round, x)
 
 
 def f64_nearest(x: ir.f64) -> ir.f64:
-    if math.isinf(x):
-        return x
-    else:
-        return float(round(x))
+    return round_to_integral(round, x)
 
 
 def f32_trunc(x: ir.f32) -> ir.f32:
-    if math.isinf(x):
-        return x
-    else:
-        return float(math.trunc(x))
+    return round_to_integral(math.trunc, x)
 
 
 def f64_trunc(x: ir.f64) -> ir.f64:
-    if math.isinf(x):
-        return x
-    else:
-        return float(math.trunc(x))
+    return round_to_integral(math.trunc, x)
 
 
 def unreachable() -> None:
